@@ -1,4 +1,4 @@
 SPECIFICATION RSpec
-CONSTANTS MaxRounds = 9 MaxStarts = 9 MaxStops = 9 Record = TRUE
+CONSTANTS MaxRounds = 40 MaxStarts = 9 MaxStops = 9 Record = TRUE
 INVARIANTS DumpSched C19
 CHECK_DEADLOCK FALSE
